@@ -2,5 +2,7 @@ pub mod bytes;
 pub mod ddquery;
 pub mod kind;
 pub mod path;
+pub mod prog;
+pub mod proggen;
 pub mod timez;
 pub mod value;
